@@ -55,7 +55,10 @@ where
         let semaphore = Arc::clone(&self.semaphore);
         let semaphore_for_check = Arc::clone(&self.semaphore);
         let config = Arc::clone(&self.config);
-        let mut inner = self.inner.clone();
+        // Take the instance that `poll_ready` was called on (a fresh clone has not been
+        // polled and may not be ready) and leave a clone in its place.
+        let clone = self.inner.clone();
+        let mut inner = std::mem::replace(&mut self.inner, clone);
         let start_time = Instant::now();
 
         #[cfg(feature = "metrics")]
